@@ -50,15 +50,16 @@ class Stream:
             return self.choice(BOUND16)
         return self.u32() & 0xFFFF
 
-    def pointer(self) -> Tuple[int, str]:
-        """(value, class): interior 7/8 (no wrap reachable), boundary 1/8."""
-        if self.chance(1, 8):
+    def pointer(self, boundary: bool = True) -> Tuple[int, str]:
+        """(value, class): interior 7/8 (no wrap reachable), boundary 1/8 (when allowed)."""
+        if boundary and self.chance(1, 8):
             return self.choice(PTR_BOUNDARY), "boundary"
         return 0x00400 + self.below(0xFF000 - 0x00400), "interior"
 
 
 def gen_state(st: Stream, code: bytes, mnemonic: str = "", imax: int = 24,
-              pc: Optional[int] = None, pad: bytes = bytes(8)) -> Tuple[Dict[str, Any], List[str]]:
+              pc: Optional[int] = None, pad: bytes = bytes(8),
+              boundary: bool = True) -> Tuple[Dict[str, Any], List[str]]:
     """Build a case dict (regs, seed, mem overrides incl. the code at PC) and its class labels."""
     labels: List[str] = []
     regs: Dict[str, int] = {}
@@ -73,12 +74,15 @@ def gen_state(st: Stream, code: bytes, mnemonic: str = "", imax: int = 24,
             labels.append("I:1" if regs["I"] == 1 else "I:>=2")
     else:
         regs["I"] = st.word()
+    # one decision per case: 7/8 all pointers interior; 1/8 boundary class (each pointer then 1/2 boundary)
     ptr_cls = "interior"
+    case_boundary = boundary and st.chance(1, 8)
     for r in ("X", "Y", "U", "S"):
-        v, c = st.pointer()
-        regs[r] = v
-        if c == "boundary":
+        if case_boundary and st.chance(1, 2):
+            regs[r] = st.choice(PTR_BOUNDARY)
             ptr_cls = "boundary"
+        else:
+            regs[r] = st.pointer(False)[0]
     labels.append(f"ptr:{ptr_cls}")
     regs["F"] = st.u32() & 0xFF
     if pc is None:
